@@ -35,7 +35,7 @@ ASSUMPTIONS = [
 # hand-verified (English) singular forms; None = no distinct singular -> '<attr>_item'
 SINGULAR = {"items": "item", "boxes": "box", "children": "child", "data": "datum", "sheep": None, "foos": "foo", "foo": None, "values": "value",
             "entries": "entry", "keys": "key", "nums": "num", "names": "name", "men": "man", "leaves": "leaf", "a_items": "a_item", "a": None, "item": None,
-            "item_item": None, "items_item": None, "x": None, "xs": "x", "child": None}
+            "item_item": None, "items_item": None, "x": None, "xs": "x", "child": None, "lines": "line", "line": None, "lines_items": "lines_item"}
 SCALAR_VERBS = ["with", "update", "transform", "reset"]
 ELEM_VERBS = ["with", "update", "transform", "without"]
 TOP = ["update", "transform", "reset"]
@@ -53,6 +53,8 @@ ATTR_SETS = [
     [("foos", "list"), ("foo", "list")],                      # foo (collection) -> foo_item; foos -> foo collides with attribute foo -> foos_item
     [("item", "list"), ("item_item", "int")],                 # item -> item_item collides with attribute, fallback item_item again -> RuntimeError
     [("names", "list"), ("values", "dict"), ("count", "int"), ("foo", "int")],
+    [("lines_items", "list"), ("lines", "list"), ("line", "int")],   # fallback 'lines_item' already claimed as a singular -> RuntimeError
+    [("lines", "list"), ("lines_items", "list"), ("line", "int")],   # same attributes, other order
 ]
 TYPES = {"int": int, "list": typing.List[int], "dict": typing.Dict[str, int], "set": typing.Set[int]}
 DEFAULTS = {"int": 1, "list": [1], "dict": {"k": 1}, "set": {1}}
@@ -114,6 +116,12 @@ def make_class(case):
             ns[name] = staticmethod(lambda *a, **k: "user")
         elif kind == "property":
             ns[name] = property(lambda self: "user")
+        elif kind == "none":
+            ns[name] = None  # opting out of a helper, like __hash__ = None
+        elif kind == "false":
+            ns[name] = False
+        elif kind == "zero":
+            ns[name] = 0
         else:
             ns[name] = 12345
     for name in case["user_dunders"]:
@@ -283,7 +291,7 @@ def enum_cases():
         if err is True or not names:
             continue
         for n in names:
-            for kind in ("function", "staticmethod", "property", "value"):
+            for kind in ("function", "staticmethod", "property", "value", "none", "false", "zero"):
                 for eager in (True, False):
                     yield base_case(attrs, occupied=[[n, kind]], eager=eager)
 
@@ -302,7 +310,7 @@ def case_strategy(draw):
         for _ in range(src.choice(3)):
             n = src.pick(pool)
             if n not in [o[0] for o in c["occupied"]]:
-                c["occupied"].append([n, src.pick(["function", "staticmethod", "property", "value"])])
+                c["occupied"].append([n, src.pick(["function", "staticmethod", "property", "value", "none", "false", "zero"])])
     return c
 
 
